@@ -10,6 +10,7 @@ for i in ids:
     d = os.path.join(ROOT, 'seeded', i)
     meta = json.load(open(os.path.join(d, 'meta.json'))) if os.path.exists(os.path.join(d, 'meta.json')) else {}
     prop = meta.get('property', i[:3])
+    evf = os.path.join(ROOT, 'evidence', prop + '.json'); saved = open(evf).read() if os.path.exists(evf) else None
     a = sh(f'git -C /repo apply {d}/patch.diff')
     if a.returncode != 0:
         print(i, 'patch does not apply:', a.stderr[:200]); continue
@@ -17,6 +18,7 @@ for i in ids:
         r = sh(f'./check {prop} --tier quick', cwd=ROOT)
     finally:
         sh('git -C /repo checkout -- .')
+        if saved is not None: open(evf, 'w').write(saved)   # evidence must describe the unchanged tree
     lines = [l for l in r.stdout.split('\n') if l.startswith(('VIOLATION', 'obligation', 'UNDECIDED', prop + ':'))]
     res = {'seed': i, 'property': prop, 'cmd': f'./check {prop} --tier quick', 'exit': r.returncode,
            'verdict': {0: 'MISSED (check passed)', 1: 'DETECTED (VIOLATION)', 2: 'UNDECIDED (no alarm, no pass)'}.get(r.returncode, str(r.returncode)), 'lines': lines[:8]}
